@@ -41,10 +41,19 @@ def tokenize_rows(values, spec, return_set=True):
     return out
 
 
-def masks_for(lvals, rvals, spec):
+def masks_for(lvals, rvals, spec, ranked=False):
+    """Token bitmasks of the rows; with ranked=True bit i is the i-th token of the two tables in
+    alphabetical order (presentation independent for order-preserving spellings)."""
     tt = TokTable()
     lt = tokenize_rows(lvals, spec, True)
     rt = tokenize_rows(rvals, spec, True)
+    if ranked:
+        alltoks = set()
+        for x in lt + rt:
+            if x is not None:
+                alltoks.update(x)
+        for t in sorted(alltoks):
+            tt.ids[t] = len(tt.ids)
     lm = [None if x is None else tt.mask(x) for x in lt]
     rm = [None if x is None else tt.mask(x) for x in rt]
     return lm, rm
